@@ -29,6 +29,7 @@ type Rec struct {
 	Changed  bool   `json:"changed,omitempty"`
 	Fault    string `json:"fault,omitempty"`
 	Buffered bool   `json:"buffered,omitempty"` // was already in the receive buffer at fault time
+	More     bool   `json:"more,omitempty"`     // a further input line was already buffered (first half of a joined line)
 }
 
 // Device is the SSH front end of an ASA or IOS node.
@@ -143,7 +144,8 @@ func isDisturbing(kind string) bool {
 
 func (d *Device) rec(class, line string) *Rec {
 	d.Transcr = append(d.Transcr, Rec{K: d.k, Seq: d.Log.Add("dev", "recv[%s] %q", class, line),
-		Class: class, Line: line, Buffered: d.FaultSeq >= 0 && d.k <= d.faultBufK})
+		Class: class, Line: line, Buffered: d.FaultSeq >= 0 && d.k <= d.faultBufK,
+		More: d.Sess.Pending()})
 	return &d.Transcr[len(d.Transcr)-1]
 }
 
@@ -684,3 +686,9 @@ func (d *Device) doSave(f *Fault) string {
 	}
 	return "Building configuration...\n  Compressed configuration from 106098 bytes to 30504 bytes[OK]\n"
 }
+
+// K is the number of input lines the device has read.
+func (d *Device) K() int { return d.k }
+
+// RunningEqualsStartup tells whether the configuration is saved.
+func (d *Device) RunningEqualsStartup() bool { return !d.dirty() }
